@@ -34,7 +34,7 @@ CHECKS = {
     "C17-seed1": ["C17"], "C17-seed2": ["C17"],
     "C18-seed1": ["C18", "C15"], "C18-seed2": ["C18"],
     "C19-seed1": ["C19", "C03"], "C19-seed2": ["C19", "C15"],
-    "C03-seed3": ["C03", "C18"], "C13-seed3": ["C13", "C09"], "C10-seed3": ["C10", "C12"], "C12-seed3": ["C12", "C10"],
+    "C03-seed3": ["C03", "C18"], "C13-seed3": ["C13", "C09"], "C10-seed3": ["C10", "C12"], "C12-seed3": ["C12", "C10"], "C12-seed4": ["C12", "C09"],
 }
 
 NOTES = {
